@@ -222,12 +222,26 @@ func (in *Interp) decide(o *Obligation) Verdict {
 				v.Result = "inconclusive"
 			}
 		default:
-			switch in.Sol.Check(o.Guard, in.St.Not(o.Cond)) {
+			sol := in.Sol
+			var res smt.Result
+			if o.Cond.HasReal || o.Guard.HasReal {
+				// nonlinear real arithmetic: decided in a fresh solver context (assumptions re-asserted there)
+				if f, err := in.Sol.Fork(); err == nil {
+					sol = f
+					defer func() { in.Sol.Account(f); f.Close() }()
+					res = sol.Check(in.Valid, o.Guard, in.St.Not(o.Cond))
+				} else {
+					res = smt.Unknown
+				}
+			} else {
+				res = sol.Check(o.Guard, in.St.Not(o.Cond))
+			}
+			switch res {
 			case smt.Unsat:
 				v.Result = "holds"
 			case smt.Sat:
 				v.Result = "violated"
-				if m, err := in.Sol.Model(in.Nondets); err == nil {
+				if m, err := sol.Model(in.Nondets); err == nil {
 					v.Model = map[string]uint64{}
 					for t, x := range m {
 						v.Model[t.Name] = x
@@ -236,7 +250,7 @@ func (in *Interp) decide(o *Obligation) Verdict {
 				// independent confirmation: the full model must falsify the obligation under the
 				// assumptions when evaluated concretely by the term evaluator (no solver involved)
 				neg := in.St.And(in.Valid, in.St.And(o.Guard, in.St.Not(o.Cond)))
-				if fm, err := in.Sol.Model(collectVars(neg)); err == nil {
+				if fm, err := sol.Model(collectVars(neg)); err == nil {
 					if x, ok := in.St.Eval(neg, fm, map[*smt.Term]uint64{}); ok && x == 1 {
 						v.Confirmed = true
 					}
